@@ -29,6 +29,7 @@ for l in open(os.path.join(logs,'exits.txt')):
         res[p]={'exit':int(e),'lines':lines}
 json.dump({'non_zero':res},open(os.path.join(out,'eval.json'),'w'),indent=1)
 EOF
+  [ -f "$OUT/eval_first.json" ] || cp "$OUT/eval.json" "$OUT/eval_first.json"
   echo "$SET-$N: ${BAD:-all 0}"
 done
 git -C $WT checkout -q -- . ; git -C $WT clean -fdq
